@@ -190,7 +190,10 @@ CLAIMED = {
              "idle streams with parents, loss of the connection), interleaved in every way with the application tasks and the send "
              "task: the dictionary / priority-tree operations that raise on a missing key are never reached with one (no exception "
              "escapes the reader), the send task survives a stream left in the tree without a buffer, and an event or step on "
-             "stream s leaves every other stream's state untouched while a stream with data and window is still served.  Tied to "
+             "stream s leaves every other stream's state untouched while a stream with data and window is still served.  On the "
+             "HTTP/1 side (model.H11Proto): a connection that is not reused ends marked closed with its reader released, and a "
+             "released reader of a closed protocol leaves without consulting the parser again and ignores further input - the "
+             "handler terminates (finding F57, repaired).  Tied to "
              "the code by step-by-step differential execution, and by byte-level fuzzing of the real stack (random bytes, mutated "
              "HTTP/1, HTTP/2 and WebSocket sessions, grammar-generated rare HTTP/2 sequences around a victim stream, every input in "
              "random segmentation, both server-loop flavours) judged by independent h11/h2 parsers.",
